@@ -570,6 +570,16 @@ func assignStmtOf(body *ast.BlockStmt, name string, occ int) ast.Stmt {
 						found = stmt
 					}
 					n++
+					return true
+				}
+			}
+			// a call nested in the statement's expression (`x = append(x, f(a, b))`): same anchoring
+			if stmt != nil {
+				if _, isIf := stmt.(*ast.IfStmt); !isIf && nestedCallNamed(stmt, callAnchorName(name)) != nil {
+					if n == occ {
+						found = stmt
+					}
+					n++
 				}
 			}
 			return true
@@ -843,7 +853,7 @@ func (prog *Program) genSynth(p0 *packages.Package) (string, error) {
 			callArgParams = nil
 			if strings.HasPrefix(ac.Var, "call:") {
 				// arg0, arg1, ...: the values passed at the anchored call (declared parameters of the callee)
-				if call := callOfStmt(stmt); call != nil {
+				if call := callOfStmtNamed(stmt, ac.Var); call != nil {
 					if sig, ok := p0.TypesInfo.TypeOf(call.Fun).(*types.Signature); ok {
 						for i := 0; i < sig.Params().Len(); i++ {
 							callArgParams = append(callArgParams, fmt.Sprintf("arg%d %s", i, types.TypeString(sig.Params().At(i).Type(), qual)))
@@ -891,6 +901,69 @@ func (prog *Program) genSynth(p0 *packages.Package) (string, error) {
 		b.WriteString(fb.String())
 	}
 	return b.String(), nil
+}
+
+// callAnchorName: "call:recv.Name" -> "Name"
+func callAnchorName(anchor string) string {
+	want := strings.TrimPrefix(anchor, "call:")
+	if i := strings.LastIndex(want, "."); i >= 0 {
+		want = want[i+1:]
+	}
+	return want
+}
+
+func callName(call *ast.CallExpr) string {
+	switch f := ast.Unparen(call.Fun).(type) {
+	case *ast.Ident:
+		return f.Name
+	case *ast.SelectorExpr:
+		return f.Sel.Name
+	}
+	return ""
+}
+
+// nestedCallNamed: the first call of the named function anywhere in the statement's own expressions (not in
+// function literals, not in nested blocks)
+func nestedCallNamed(s ast.Stmt, want string) *ast.CallExpr {
+	var exprs []ast.Expr
+	switch x := s.(type) {
+	case *ast.ExprStmt:
+		exprs = []ast.Expr{x.X}
+	case *ast.AssignStmt:
+		exprs = x.Rhs
+	}
+	var found *ast.CallExpr
+	for _, e := range exprs {
+		ast.Inspect(e, func(m ast.Node) bool {
+			if found != nil {
+				return false
+			}
+			switch y := m.(type) {
+			case *ast.FuncLit:
+				return false
+			case *ast.CallExpr:
+				if callName(y) == want {
+					found = y
+					return false
+				}
+			}
+			return true
+		})
+	}
+	return found
+}
+
+// callOfStmtNamed: the call a call-anchored assert refers to: the statement's own call when it has the anchored
+// name, otherwise the first nested call with that name
+func callOfStmtNamed(s ast.Stmt, anchor string) *ast.CallExpr {
+	want := callAnchorName(anchor)
+	if c := callOfStmt(s); c != nil && callName(c) == want {
+		return c
+	}
+	if c := nestedCallNamed(s, want); c != nil {
+		return c
+	}
+	return callOfStmt(s)
 }
 
 // callOfStmt: the call a call-anchored assert is attached to (expression statement, single assignment, if condition)
